@@ -1,12 +1,14 @@
 import Driver.Buddy
 import Driver.Key
 import Driver.Table
+import Driver.Multimap
 /-! Line-protocol driver. First token of each line selects the model. -/
 open Redb.Driver
 
 structure DState where
   buddy : Option Redb.Buddy.Buddy := none
   tbl : TblState := {}
+  mm : MmState := {}
 
 def dispatch (st : DState) (line : String) : DState × String :=
   let (req, obs) := splitLine line
@@ -18,6 +20,9 @@ def dispatch (st : DState) (line : String) : DState × String :=
   | "tbl" :: rest =>
     let (t, out) := tblStep st.tbl rest obs
     ({ st with tbl := t }, out)
+  | "mm" :: rest =>
+    let (t, out) := mmStep st.mm rest obs
+    ({ st with mm := t }, out)
   | _ => (st, "bad-op")
 
 partial def loop (h : IO.FS.Stream) (out : IO.FS.Stream) (st : DState) : IO Unit := do
